@@ -481,7 +481,7 @@ def method_ghosts():
         if isinstance(a, OldDict):
             return b is a._orig
         return a is b
-    return {"truthy": bool, "dict_key": lambda d, i: list(d)[i], "dict_wf": lambda d: True, "same_object": same_object,
+    return {"truthy": bool, "dict_same": lambda a, b: list(a.items()) == list(b.items()), "dict_key": lambda d, i: list(d)[i], "dict_wf": lambda d: True, "same_object": same_object,
             "has_key": lambda d, k: k in d, "mcall": lambda name, obj, *a: getattr(obj, name)(*a)}
 
 
